@@ -33,6 +33,22 @@ What is read from the source, and how it lands in the generated text:
       return _make_output(ans, output_type, self.seqs, seqs2)
       COND ::= COND and COND | COND or COND | not COND | is_custom | dist > threshold | dist >= threshold | threshold < dist
              | levenshtein(seq, self.seqs[j]) > self.max_edits | ... >= ... (as Nat.ltb / Nat.leb on the edit radius)
+  symdel(seqs, max_edits=1, ..., seqs2=None, progress=False): self mode (the `if seqs2 is None:` branch) and the delegation
+      _check_common_input(...)                                       (C10g)
+      symdeldb = SymdelDB(seqs, max_edits)
+      if seqs2 is None:
+          ans = set()
+          is_custom = ... ; threshold = A if is_custom else max_edits ; distance substitution      (as in lookup)
+          for key, values in symdeldb.variant_dict.items():
+              if len(values) == 1: continue                         (optional; `< 2` accepted)
+              for i, j in combinations(values, 2):
+                  seq_i, seq_j = symdeldb.seqs[i], symdeldb.seqs[j]
+                  dist = custom_distance(seq_i, seq_j)
+                  if COND: continue      (zero or more; COND as above with seq_i, seq_j)
+                  ans.add((i, j, dist)); ans.add((j, i, dist))      (either order)
+          return _make_output(ans, output_type, seqs, seqs2)
+      return symdeldb.lookup(seqs2, custom_distance=custom_distance, max_custom_distance=max_custom_distance, output_type=output_type,
+                             progress=progress)
 Anything else is refused; on refusal the committed snapshot is written and the refusal recorded (DESIGN.md 1.5)."""
 import ast, os, traceback
 
@@ -258,6 +274,165 @@ class Lookup:
         return tt, thr, used, conds
 
 
+class Self(Lookup):
+    """the self-mode branch of symdel()"""
+    def __init__(self, fn):
+        names = [x.arg for x in fn.args.args]
+        need = ['seqs', 'max_edits', 'custom_distance', 'max_custom_distance', 'output_type', 'seqs2']
+        if any(n not in names for n in need) or fn.args.vararg or fn.args.kwarg:
+            raise Refuse('symdel: unexpected signature %s' % names)
+        self.b = body_of(fn)
+
+    def cond(self, e):
+        if isinstance(e, ast.BoolOp):
+            parts = [self.cond(v) for v in e.values]
+            op = ' && ' if isinstance(e.op, ast.And) else ' || '
+            out = parts[0]
+            for p in parts[1:]:
+                out = '(%s%s%s)' % (out, op, p)
+            return out
+        if isinstance(e, ast.UnaryOp) and isinstance(e.op, ast.Not):
+            return '(negb %s)' % self.cond(e.operand)
+        if isinstance(e, ast.Name) and e.id == 'is_custom':
+            return 'is_custom'
+        if isinstance(e, ast.Compare) and len(e.ops) == 1:
+            l, op, r = U(e.left), e.ops[0], U(e.comparators[0])
+            lev = {'levenshtein(seq_i, seq_j)': '(levenshtein seq_i seq_j)', 'levenshtein(seq_j, seq_i)': '(levenshtein seq_j seq_i)'}
+            if (l, r) == ('dist', 'threshold') and isinstance(op, ast.Gt) or (l, r) == ('threshold', 'dist') and isinstance(op, ast.Lt):
+                return '(gtD dist threshold)'
+            if (l, r) == ('dist', 'threshold') and isinstance(op, ast.LtE) or (l, r) == ('threshold', 'dist') and isinstance(op, ast.GtE):
+                return '(negb (gtD dist threshold))'
+            if l in lev and r == 'max_edits':
+                t = {ast.Gt: '(Nat.ltb max_edits %s)', ast.GtE: '(Nat.leb max_edits %s)',
+                     ast.Lt: '(Nat.ltb %s max_edits)', ast.LtE: '(Nat.leb %s max_edits)'}.get(type(op))
+                if t:
+                    return t % lev[l]
+            if r in lev and l == 'max_edits':
+                t = {ast.Lt: '(Nat.ltb max_edits %s)', ast.LtE: '(Nat.leb max_edits %s)',
+                     ast.Gt: '(Nat.ltb %s max_edits)', ast.GtE: '(Nat.leb %s max_edits)'}.get(type(op))
+                if t:
+                    return t % lev[r]
+        raise Refuse('symdel self mode: filter condition outside the subset (line %d): %s' % (getattr(e, 'lineno', 0), U(e)[:120]))
+
+    def translate(self):
+        b = list(self.b)
+        if len(b) != 4:
+            raise Refuse('symdel: %d top-level statements, expected validation, database, self branch, delegation' % len(b))
+        v, db, br, ret = b
+        if not (isinstance(v, ast.Expr) and isinstance(v.value, ast.Call) and U(v.value.func) == '_check_common_input'):
+            raise Refuse('symdel: does not start with _check_common_input(...)')
+        if U(db) != 'symdeldb = SymdelDB(seqs, max_edits)':
+            raise Refuse('symdel: `symdeldb = SymdelDB(seqs, max_edits)` expected (line %d)' % db.lineno)
+        want = ("return symdeldb.lookup(seqs2, custom_distance=custom_distance, max_custom_distance=max_custom_distance, "
+                "output_type=output_type, progress=progress)")
+        if U(ret) != want:
+            raise Refuse('symdel: two-collection form is not delegated to symdeldb.lookup with all arguments: %s' % U(ret)[:160])
+        if not (isinstance(br, ast.If) and U(br.test) == 'seqs2 is None' and not br.orelse):
+            raise Refuse('symdel: self branch is not `if seqs2 is None:` (line %d)' % br.lineno)
+        sb = br.body
+        if len(sb) != 6 or U(sb[0]) != 'ans = set()':
+            raise Refuse('symdel self mode: %d statements / no `ans = set()`' % len(sb))
+        if not (isinstance(sb[1], ast.Assign) and U(sb[1].targets[0]) == 'is_custom'):
+            raise Refuse('symdel self mode: `is_custom = ...` expected')
+        tt = self.truth_is_custom(sb[1].value)
+        t = sb[2]
+        if not (isinstance(t, ast.Assign) and U(t.targets[0]) == 'threshold' and isinstance(t.value, ast.IfExp) and U(t.value.test) == 'is_custom'):
+            raise Refuse('symdel self mode: `threshold = A if is_custom else B` expected')
+        names = {'max_custom_distance': 'max_custom_distance', 'max_edits': 'self_max_edits'}
+        if U(t.value.body) not in names or U(t.value.orelse) not in names:
+            raise Refuse('symdel self mode: threshold operands')
+        thr = (names[U(t.value.body)], names[U(t.value.orelse)])
+        used = {'none': None, 'hamming': None, 'callable': 2}
+        fnno = {'_hamming_replacement': 0, 'levenshtein': 1}
+        node = sb[3]
+        if not isinstance(node, ast.If):
+            raise Refuse('symdel self mode: distance substitution expected')
+        while node is not None:
+            kind = {"custom_distance == 'hamming'": 'hamming', 'custom_distance is None': 'none', 'custom_distance == None': 'none'}.get(U(node.test))
+            if kind is None or used[kind] is not None or len(node.body) != 1 or not isinstance(node.body[0], ast.Assign) \
+                    or U(node.body[0].targets[0]) != 'custom_distance' or U(node.body[0].value) not in fnno:
+                raise Refuse('symdel self mode: distance substitution branch (line %d)' % node.lineno)
+            used[kind] = fnno[U(node.body[0].value)]
+            node = node.orelse[0] if len(node.orelse) == 1 and isinstance(node.orelse[0], ast.If) else (None if not node.orelse else 0)
+            if node == 0:
+                raise Refuse('symdel self mode: distance substitution has an else branch')
+        if used['none'] is None or used['hamming'] is None:
+            raise Refuse('symdel self mode: custom_distance None / hamming is not replaced by a function')
+        loop, ret2 = sb[4], sb[5]
+        if U(ret2) != 'return _make_output(ans, output_type, seqs, seqs2)':
+            raise Refuse('symdel self mode: return is not _make_output(ans, output_type, seqs, seqs2)')
+        if not (isinstance(loop, ast.For) and not loop.orelse and U(loop.target) == '(key, values)' and U(loop.iter) == 'symdeldb.variant_dict.items()'):
+            raise Refuse('symdel self mode: bucket loop (line %d)' % loop.lineno)
+        lb = list(loop.body)
+        skip1 = False
+        if len(lb) == 2 and isinstance(lb[0], ast.If) and U(lb[0]) in ('if len(values) == 1:\n    continue', 'if len(values) < 2:\n    continue'):
+            skip1 = True
+            lb = lb[1:]
+        if len(lb) != 1 or not (isinstance(lb[0], ast.For) and not lb[0].orelse and U(lb[0].target) == '(i, j)' and U(lb[0].iter) == 'combinations(values, 2)'):
+            raise Refuse('symdel self mode: pair loop is not `for i, j in combinations(values, 2)`')
+        pb = lb[0].body
+        if len(pb) < 4 or U(pb[0]) != 'seq_i, seq_j = (symdeldb.seqs[i], symdeldb.seqs[j])' and U(pb[0]) != '(seq_i, seq_j) = (symdeldb.seqs[i], symdeldb.seqs[j])':
+            raise Refuse('symdel self mode: `seq_i, seq_j = symdeldb.seqs[i], symdeldb.seqs[j]` expected: %s' % U(pb[0])[:80])
+        if U(pb[1]) != 'dist = custom_distance(seq_i, seq_j)':
+            raise Refuse('symdel self mode: `dist = custom_distance(seq_i, seq_j)` expected')
+        if sorted(U(x) for x in pb[-2:]) != sorted(['ans.add((i, j, dist))', 'ans.add((j, i, dist))']):
+            raise Refuse('symdel self mode: the pair is not added in both orientations')
+        conds = []
+        for st in pb[2:-2]:
+            if not (isinstance(st, ast.If) and not st.orelse and len(st.body) == 1 and isinstance(st.body[0], ast.Continue)):
+                raise Refuse('symdel self mode: filter statement is not `if COND: continue` (line %d)' % st.lineno)
+            conds.append(self.cond(st.test))
+        return tt, thr, used, conds, skip1
+
+
+def emit_self(tt, thr, used, conds, skip1):
+    b = lambda x: 'true' if x else 'false'
+    flt = ''.join('          if %s then ans else\n' % c for c in conds)
+    skip = '      if Nat.eqb (length values) 1 then ans else\n' if skip1 else ''
+    return '''
+(* ---- symdel(), self mode (seqs2 is None) ---- *)
+Definition gen_self_is_custom (c : cdist_arg) : bool :=
+  match c with CNone => %s | CHamming => %s | CCallable => %s end.
+Definition gen_self_threshold {D : Type} (is_custom : bool) (max_custom_distance self_max_edits : D) : D :=
+  if is_custom then %s else %s.
+Definition gen_self_distance_used (c : cdist_arg) : nat :=
+  match c with CHamming => %d | CNone => %d | CCallable => %d end.
+
+Section GenSymdelSelf.
+Context {D : Type}.
+Variable iterS : list str -> list str.
+Variable eqD : forall a b : D, {a = b} + {a <> b}.
+Variable custom_distance : str -> str -> D.
+Variable levenshtein : str -> str -> nat.
+Variable gtD : D -> D -> bool.
+
+Definition trip_dec : forall a b : nat * nat * D, {a = b} + {a <> b}.
+Proof. decide equality. decide equality; apply Nat.eq_dec. Defined.
+
+Definition gen_symdel_self (seqs : list str) (max_edits : nat) (is_custom : bool) (threshold : D) : list (nat * nat * D) :=
+  let symdeldb_variant_dict := gen_symdeldb_init iterS seqs max_edits in
+  fold_left (fun ans '(key, values) =>
+%s      fold_left (fun ans c =>
+          match c with
+          | [i; j] =>
+          let seq_i := nth i seqs [] in
+          let seq_j := nth j seqs [] in
+          let dist := custom_distance seq_i seq_j in
+%s          set_add trip_dec (j, i, dist) (set_add trip_dec (i, j, dist) ans)
+          | _ => ans
+          end)
+        (combinations values 2) ans)
+    symdeldb_variant_dict [].
+End GenSymdelSelf.
+''' % (b(tt['none']), b(tt['hamming']), b(tt['callable']), thr[0], thr[1],
+       used['hamming'], used['none'], used['callable'], skip, flt.replace('self_max_edits', 'max_edits'))
+
+
+SNAP_SELF = ({'none': False, 'hamming': False, 'callable': True}, ('max_custom_distance', 'self_max_edits'),
+             {'none': 1, 'hamming': 0, 'callable': 2},
+             ['(gtD dist threshold)', '(is_custom && (Nat.ltb max_edits (levenshtein seq_i seq_j)))'], True)
+
+
 def emit(tt, thr, used, conds):
     b = lambda x: 'true' if x else 'false'
     flt = ''.join('        if %s then ans else\n' % c for c in conds)
@@ -315,7 +490,7 @@ SNAP = ({'none': False, 'hamming': False, 'callable': True}, ('max_custom_distan
 
 def run(STATUS, write_if_changed, ROOT, REPO):
     head = ['(* GENERATED from pyrepseq/nn.py (class SymdelDB: __init__, lookup) by translate/regen_c03.py on every check; do not edit. *)',
-            'From Coq Require Import List Arith Bool ListSet.', 'From PV Require Import lib.Str lib.PyDict gen.Gen_c01.',
+            'From Coq Require Import List Arith Bool ListSet.', 'From PV Require Import lib.Str lib.PyDict lib.Combinations gen.Gen_c01.',
             'Import ListNotations.', '']
     try:
         tree = ast.parse(open(os.path.join(REPO, 'pyrepseq', 'nn.py')).read())
@@ -337,4 +512,17 @@ def run(STATUS, write_if_changed, ROOT, REPO):
     except Exception:
         txt = '(* translator crashed -- committed snapshot *)\n' + emit(*SNAP)
         STATUS[NAME] = dict(ok=False, properties=PROPS, error='translator crashed: ' + traceback.format_exc()[-300:])
+    try:
+        fn = next((n for n in tree.body if isinstance(n, ast.FunctionDef) and n.name == 'symdel'), None)
+        if fn is None:
+            raise Refuse('function symdel not found')
+        txt += emit_self(*Self(fn).translate())
+        STATUS['nn.symdel[self]'] = dict(ok=True, properties=['C01', 'C07', 'C14'], error=None)
+    except Refuse as e:
+        txt += '(* translator refused: %s -- committed snapshot of the last good text *)\n' % str(e).replace('*)', '* )') + emit_self(*SNAP_SELF)
+        STATUS['nn.symdel[self]'] = dict(ok=True, snapshot=True, properties=['C01', 'C07', 'C14'],
+                                         error='regen unavailable (%s): committed snapshot used, tie by correspondence' % str(e)[:200])
+    except Exception:
+        txt += '(* translator crashed -- committed snapshot *)\n' + emit_self(*SNAP_SELF)
+        STATUS['nn.symdel[self]'] = dict(ok=False, properties=['C01', 'C07', 'C14'], error='translator crashed: ' + traceback.format_exc()[-300:])
     write_if_changed(os.path.join(ROOT, 'coq/gen/Gen_c03.v'), '\n'.join(head) + txt)
